@@ -460,6 +460,53 @@ fn c20_serde_malformed(ctx: &mut Ctx) {
     ctx.note("shape", || name.to_string());
     check!(ctx, r.is_err(), "malformed input ({name}) for {} was accepted as {:?}", x.show(), r.as_ref().ok().map(|t| Dd::of(*t).show()));
     ctx.set_nontrivial(true);
+    other_key_types(ctx, x, h2);
+}
+
+/// Maps whose keys are not strings: field INDICES (u64, as index-keyed formats hand them over)
+/// and BYTE strings.  A deserializer may refuse such keys altogether (the crate does today); if
+/// it accepts them, a map is acceptable only when its keys are exactly {0, 1} resp. {b"hi",
+/// b"lo"}, once each - anything else has a missing, duplicate or unknown field and must be
+/// rejected - and an accepted map must carry the words over (0 / "hi" = high word).
+fn other_key_types(ctx: &mut Ctx, x: Dd, extra: f64) {
+    let n = 1 + ctx.below(3) as usize;
+    let vals = [x.hi, x.lo, extra];
+    let judge = |ctx: &mut Ctx, what: String, exact: Option<(f64, f64)>, r: Result<Result<TwoFloat, String>, String>| match r {
+        Err(m) => ctx.fail(format!("deserialising {what} panicked: {m}")),
+        Ok(Err(_)) => {}
+        Ok(Ok(t)) => match exact {
+            None => ctx.fail(format!("{what} has a missing, duplicate or unknown field but was accepted as {}", Dd::of(t).show())),
+            Some((h, l)) => {
+                check!(ctx, Dd::of(t).valid(), "{what} deserialised into the invalid {}", Dd::of(t).show());
+                check!(ctx, same_word(t.hi(), h) && same_word(t.lo(), l), "{what} changed the words: {}", Dd::of(t).show());
+            }
+        },
+    };
+    if ctx.flag() {
+        const POOL: [u64; 6] = [0, 1, 2, 7, u64::MAX, 1];
+        let keys: Vec<u64> = (0..n).map(|_| POOL[ctx.below(6) as usize]).collect();
+        let fields: Vec<(u64, f64)> = keys.iter().cloned().zip(vals.iter().cloned()).collect();
+        let exact = if n == 2 && keys.contains(&0) && keys.contains(&1) { Some(if keys[0] == 0 { (vals[0], vals[1]) } else { (vals[1], vals[0]) }) } else { None };
+        let what = format!("a map keyed by the field indices {:?} with values {:?}", keys, &vals[..n]);
+        let r = guard(|| {
+            let d: MapDeserializer<_, DeError> = MapDeserializer::new(fields.into_iter());
+            TwoFloat::deserialize(d).map_err(|e| e.to_string())
+        });
+        ctx.label("keys:u64");
+        judge(ctx, what, exact, r);
+    } else {
+        const POOL: [&[u8]; 8] = [b"hi", b"lo", b"HI", b"h", b"hi\0", b"lox", b"", b"lo"];
+        let keys: Vec<&'static [u8]> = (0..n).map(|_| POOL[ctx.below(8) as usize]).collect();
+        let fields: Vec<(&'static [u8], f64)> = keys.iter().cloned().zip(vals.iter().cloned()).collect();
+        let exact = if n == 2 && keys.contains(&&b"hi"[..]) && keys.contains(&&b"lo"[..]) { Some(if keys[0] == b"hi" { (vals[0], vals[1]) } else { (vals[1], vals[0]) }) } else { None };
+        let what = format!("a map keyed by the byte strings {:?} with values {:?}", keys.iter().map(|k| String::from_utf8_lossy(k).into_owned()).collect::<Vec<_>>(), &vals[..n]);
+        let r = guard(|| {
+            let d: MapDeserializer<_, DeError> = MapDeserializer::new(fields.into_iter());
+            TwoFloat::deserialize(d).map_err(|e| e.to_string())
+        });
+        ctx.label("keys:bytes");
+        judge(ctx, what, exact, r);
+    }
 }
 
 
